@@ -5,7 +5,7 @@
   Mathlib-free so that it links as a native executable.
 -/
 import ALV.Driver.All
-open Lean ALV
+open ALV
 
 def handleLine (line : String) : String :=
   match Json.parse line with
